@@ -1162,7 +1162,7 @@ theorem htmlPercentFloor_props (c t : Nat) (h : c ≤ t) :
 theorem mdRow_props (c : Cov) :
     (mdRow c).total = c.lines.length ∧ (mdRow c).covered = countPos c.lines ∧
     (mdRow c).covered ≤ (mdRow c).total ∧
-    (mdRow c).rate = ⟨100 * countPos c.lines, c.lines.length⟩ := by
+    (mdRow c).rate = mdPercent (countPos c.lines) c.lines.length := by
   have h := countZero_add_countPos c.lines
   have hc : c.lines.length - countZero c.lines = countPos c.lines := by omega
   simp only [mdRow, hc]
@@ -1178,7 +1178,7 @@ theorem markdown_totals (rs : List FileIn) :
     (markdown rs).totalLines = ((markdown rs).rows.map (·.total)).sum ∧
     (markdown rs).totalCovered = ((markdown rs).rows.map (·.covered)).sum ∧
     (markdown rs).totalCovered ≤ (markdown rs).totalLines ∧
-    (markdown rs).rate = ⟨100 * (markdown rs).totalCovered, (markdown rs).totalLines⟩ := by
+    (markdown rs).rate = mdPercent (markdown rs).totalCovered (markdown rs).totalLines := by
   simp only [markdown, foldl_add_nat, Nat.zero_add]
   refine ⟨trivial, trivial, ?_, trivial⟩
   induction rs with
@@ -1187,6 +1187,14 @@ theorem markdown_totals (rs : List FileIn) :
     have := (mdRow_props r.cov).2.2.1
     simp only [List.map_cons, List.sum_cons] at *
     omega
+
+theorem mdPercent_props (c t : Nat) (h : c ≤ t) :
+    (mdPercent c t).Finite ∧ (mdPercent c t).InPercent ∧
+    (t ≠ 0 → (mdPercent c t).IsPercent c t) ∧ (t = 0 → mdPercent c t = ⟨100, 1⟩) := by
+  unfold mdPercent Rate.Finite Rate.InPercent Rate.IsPercent
+  by_cases ht : t = 0
+  · simp [ht]
+  · refine ⟨by simp [ht], by simp [ht]; omega, fun _ => by simp [ht, Nat.mul_comm], fun h0 => absurd h0 ht⟩
 
 theorem markdown_rows (rs : List FileIn) : (markdown rs).rows = rs.map fun r => mdRow r.cov := rfl
 
